@@ -409,3 +409,426 @@ func (c *Ctx) runShiftOrder(rule string, pkgs []*packages.Package, filter func(f
 func (c *Ctx) runSortedKeys() {}
 
 var _ = sort.Strings
+
+// ---------------------------------------------------------------------------
+// FILL — an output slice allocated with make([]T, n) and filled by index in a
+// counted loop receives an element on EVERY path through the loop body that
+// reaches the next iteration (a path that skips the store silently leaves the
+// zero value — e.g. a vertex moved to the origin).
+
+func (c *Ctx) runFill(rule string, pkgs []*packages.Package, filter func(fn *ssa.Function) bool) {
+	for _, p := range pkgs {
+		if p == nil {
+			continue
+		}
+		for _, fn := range c.srcFuncs(p) {
+			if filter != nil && !filter(fn) {
+				continue
+			}
+			loops := naturalLoops(fn)
+			n := 0
+			for h, body := range loops {
+				// stores out[iv] = ... in the loop where out is a MakeSlice
+				// outside the loop and iv the loop's induction variable
+				type target struct {
+					out ssa.Value
+					iv  ssa.Value
+				}
+				stores := map[target][]*ssa.Store{}
+				for b := range body {
+					for _, ins := range b.Instrs {
+						st, ok := ins.(*ssa.Store)
+						if !ok {
+							continue
+						}
+						ia, ok := st.Addr.(*ssa.IndexAddr)
+						if !ok {
+							continue
+						}
+						mk, ok := ia.X.(*ssa.MakeSlice)
+						if !ok || body[mk.Block()] {
+							continue
+						}
+						if !isInduction(ia.Index, h, body) {
+							continue
+						}
+						t := target{mk, ia.Index}
+						stores[t] = append(stores[t], st)
+					}
+				}
+				for t, sts := range stores {
+					n++
+					c.analysed(qname(fn))
+					key := fmt.Sprintf("%s fill#%d of %s", qname(fn), n, t.out.Name())
+					// can a back edge be reached from the header without passing a store block?
+					storeBlocks := map[*ssa.BasicBlock]bool{}
+					for _, st := range sts {
+						storeBlocks[st.Block()] = true
+					}
+					skipped := false
+					seen := map[*ssa.BasicBlock]bool{}
+					var walk func(b *ssa.BasicBlock)
+					walk = func(b *ssa.BasicBlock) {
+						if seen[b] || storeBlocks[b] {
+							return
+						}
+						seen[b] = true
+						for _, s := range b.Succs {
+							if s == h {
+								if b != h {
+									skipped = true
+								}
+								continue
+							}
+							if body[s] {
+								walk(s)
+							}
+						}
+					}
+					// start from the body entry (successors of the header inside the loop)
+					seen[h] = true
+					for _, s := range h.Succs {
+						if body[s] {
+							walk(s)
+						}
+					}
+					if skipped {
+						c.bad(rule, key, sts[0].Pos(), "some path through the loop body reaches the next iteration without storing the element: that entry of the freshly made output keeps its zero value")
+					} else {
+						c.ok(rule, key, sts[0].Pos(), "every iteration stores its element")
+					}
+				}
+			}
+		}
+	}
+}
+
+// isInduction: v is the loop's index (phi of the header, or phi+const for
+// range loops).
+func isInduction(v ssa.Value, h *ssa.BasicBlock, body map[*ssa.BasicBlock]bool) bool {
+	if bo, ok := v.(*ssa.BinOp); ok && bo.Op == token.ADD {
+		if _, isC := bo.Y.(*ssa.Const); isC {
+			v = bo.X
+		}
+	}
+	phi, ok := v.(*ssa.Phi)
+	return ok && phi.Block() == h
+}
+
+// ---------------------------------------------------------------------------
+// KEEP — the decimation criteria consult the keep-filter before they allow a
+// removal: no "true" is returned on a path that neither saw FilterFunc == nil
+// nor a true answer of FilterFunc.
+
+func (c *Ctx) runKeepFilter(rule string, pkgShort, ifaceName, method, filterField string) {
+	p := c.pkg(pkgShort)
+	if p == nil {
+		return
+	}
+	tn, _ := p.Types.Scope().Lookup(ifaceName).(*types.TypeName)
+	if tn == nil {
+		c.problem("unresolved anchor: %s.%s", pkgShort, ifaceName)
+		return
+	}
+	it, ok := tn.Type().Underlying().(*types.Interface)
+	if !ok {
+		c.problem("%s.%s is not an interface", pkgShort, ifaceName)
+		return
+	}
+	scope := p.Types.Scope()
+	for _, n := range scope.Names() {
+		tn2, ok := scope.Lookup(n).(*types.TypeName)
+		if !ok {
+			continue
+		}
+		named, ok := tn2.Type().(*types.Named)
+		if !ok {
+			continue
+		}
+		if _, isI := named.Underlying().(*types.Interface); isI {
+			continue
+		}
+		ptr := types.NewPointer(named)
+		if !types.Implements(ptr, it) && !types.Implements(named, it) {
+			continue
+		}
+		obj, _, _ := types.LookupFieldOrMethod(ptr, true, p.Types, method)
+		f, _ := obj.(*types.Func)
+		fn := c.ssaFunc(f)
+		if fn == nil || fn.Blocks == nil {
+			continue
+		}
+		c.analysed(qname(fn))
+		key := fmt.Sprintf("%s.%s.%s consults %s", pkgShort, n, method, filterField)
+		// edges that establish "filter absent" or "filter said keep-able (true)"
+		type edge struct{ from, to *ssa.BasicBlock }
+		allowed := map[edge]bool{}
+		isFilterLoad := func(v ssa.Value) bool {
+			u, ok := v.(*ssa.UnOp)
+			if !ok || u.Op != token.MUL {
+				return false
+			}
+			fa, ok := u.X.(*ssa.FieldAddr)
+			return ok && fieldOf(fa) != nil && fieldOf(fa).Name() == filterField
+		}
+		for _, b := range fn.Blocks {
+			if len(b.Instrs) == 0 {
+				continue
+			}
+			ifi, ok := b.Instrs[len(b.Instrs)-1].(*ssa.If)
+			if !ok || len(b.Succs) != 2 {
+				continue
+			}
+			cond, neg := ifi.Cond, false
+			if un, ok := cond.(*ssa.UnOp); ok && un.Op == token.NOT {
+				cond, neg = un.X, true
+			}
+			if be, ok := cond.(*ssa.BinOp); ok && (be.Op == token.NEQ || be.Op == token.EQL) {
+				if (isFilterLoad(be.X) && isNilConst(be.Y)) || (isFilterLoad(be.Y) && isNilConst(be.X)) {
+					nilEdge := 1 // != nil false
+					if be.Op == token.EQL {
+						nilEdge = 0
+					}
+					if neg {
+						nilEdge = 1 - nilEdge
+					}
+					allowed[edge{b, b.Succs[nilEdge]}] = true
+				}
+			}
+			if call, ok := cond.(*ssa.Call); ok && isFilterLoad(call.Call.Value) {
+				trueEdge := 0
+				if neg {
+					trueEdge = 1
+				}
+				allowed[edge{b, b.Succs[trueEdge]}] = true
+			}
+		}
+		if len(allowed) == 0 {
+			c.bad(rule, key, fn.Pos(), "the criterion never tests the keep-filter: vertices the caller asked to keep can be removed")
+			continue
+		}
+		bad := ""
+		seen := map[*ssa.BasicBlock]bool{}
+		stack := []*ssa.BasicBlock{fn.Blocks[0]}
+		for len(stack) > 0 {
+			b := stack[len(stack)-1]
+			stack = stack[:len(stack)-1]
+			if seen[b] {
+				continue
+			}
+			seen[b] = true
+			if ret, ok := b.Instrs[len(b.Instrs)-1].(*ssa.Return); ok && len(ret.Results) == 1 && !isConstFalse(ret.Results[0]) {
+				bad = c.pos(ret.Pos())
+			}
+			for _, s := range b.Succs {
+				if !allowed[edge{b, s}] {
+					stack = append(stack, s)
+				}
+			}
+		}
+		if bad == "" {
+			c.ok(rule, key, fn.Pos(), "every result other than false lies behind the 'filter absent' or 'filter returned true' edge")
+		} else {
+			c.bad(rule, key, fn.Pos(), "a removal can be allowed at "+bad+" on a path that bypasses the keep-filter")
+		}
+	}
+}
+
+// GUARDCALL — every call of callee in the package is dominated by a true
+// answer of guard (same receiver family).
+func (c *Ctx) runGuardedCall(rule, pkgShort, callee, guard string) {
+	p := c.pkg(pkgShort)
+	if p == nil {
+		return
+	}
+	n := 0
+	for _, fn := range c.srcFuncs(p) {
+		for _, b := range fn.Blocks {
+			for _, ins := range b.Instrs {
+				call, ok := ins.(*ssa.Call)
+				if !ok || !callsNamed(call, callee) {
+					continue
+				}
+				n++
+				c.analysed(qname(fn))
+				key := fmt.Sprintf("%s call#%d of %s", qname(fn), n, callee)
+				ok2 := false
+				for _, f := range factsAt(b) {
+					gc, isCall := f.cond.(*ssa.Call)
+					if !isCall || !f.taken {
+						continue
+					}
+					name := ""
+					if gc.Call.IsInvoke() {
+						name = gc.Call.Method.Name()
+					} else if sf := gc.Call.StaticCallee(); sf != nil {
+						name = sf.Name()
+					}
+					if name == guard {
+						ok2 = true
+					}
+				}
+				if ok2 {
+					c.ok(rule, key, call.Pos(), "dominated by "+guard+"(...) == true")
+				} else {
+					c.bad(rule, key, call.Pos(), callee+" is reached without a dominating true answer of "+guard)
+				}
+			}
+		}
+	}
+}
+
+// ---------------------------------------------------------------------------
+// ALLCHILD — a function that walks a tree node (a struct with a slice of
+// pointers to its own type) visits its children through a loop over the whole
+// slice; picking children by constant index is accepted only under an exact
+// length test (otherwise children beyond the constant arity are dropped).
+
+func (c *Ctx) runAllChildren(rule string, pkgs []*packages.Package, filter func(fn *ssa.Function) bool) {
+	childField := func(t types.Type) int {
+		pt, ok := t.Underlying().(*types.Pointer)
+		if !ok {
+			return -1
+		}
+		st, ok := pt.Elem().Underlying().(*types.Struct)
+		if !ok {
+			return -1
+		}
+		for i := 0; i < st.NumFields(); i++ {
+			sl, ok := st.Field(i).Type().Underlying().(*types.Slice)
+			if !ok {
+				continue
+			}
+			if ep, ok := sl.Elem().Underlying().(*types.Pointer); ok && types.Identical(ep.Elem(), pt.Elem()) {
+				return i
+			}
+		}
+		return -1
+	}
+	for _, p := range pkgs {
+		if p == nil {
+			continue
+		}
+		for _, fn := range c.srcFuncs(p) {
+			if filter != nil && !filter(fn) {
+				continue
+			}
+			loops := naturalLoops(fn)
+			n := 0
+			for _, b := range fn.Blocks {
+				for _, ins := range b.Instrs {
+					ia, ok := ins.(*ssa.IndexAddr)
+					if !ok {
+						continue
+					}
+					ld, ok := ia.X.(*ssa.UnOp)
+					if !ok || ld.Op != token.MUL {
+						continue
+					}
+					fa, ok := ld.X.(*ssa.FieldAddr)
+					if !ok || childField(fa.X.Type()) != fa.Field {
+						continue
+					}
+					n++
+					c.analysed(qname(fn))
+					key := fmt.Sprintf("%s child#%d of %s", qname(fn), n, fieldOf(fa).Name())
+					if k, isC := constInt(ia.Index); isC {
+						// exact-length fact?
+						exact := false
+						for _, f := range factsAt(b) {
+							be, ok := f.cond.(*ssa.BinOp)
+							if !ok {
+								continue
+							}
+							if isLenOf(be.X, ld) || isLenOf(be.Y, ld) {
+								if (be.Op == token.EQL && f.taken) || (be.Op == token.NEQ && !f.taken) {
+									exact = true
+								}
+							}
+						}
+						if exact {
+							c.ok(rule, key, ia.Pos(), fmt.Sprintf("constant child %d under an exact length test", k))
+						} else {
+							c.bad(rule, key, ia.Pos(), fmt.Sprintf("child %d is picked by constant index without an exact length test: nodes with more children lose the others (and their subtrees)", k))
+						}
+						continue
+					}
+					inLoop := false
+					for h, body := range loops {
+						if body[b] && isInduction(ia.Index, h, body) {
+							inLoop = true
+						}
+					}
+					if inLoop {
+						c.ok(rule, key, ia.Pos(), "children are visited by a loop over the whole slice")
+					} else {
+						c.bad(rule, key, ia.Pos(), "children are indexed by something other than a loop over the whole slice")
+					}
+				}
+			}
+		}
+	}
+}
+
+// ---------------------------------------------------------------------------
+// CS.RANGE — a block of lattice cells is split into two index ranges that
+// meet: the upper bound written into one half and the lower bound written into
+// the other half are the same value on the same axis.
+
+func (c *Ctx) runRangeSplit(rule string, pkgShort, typeName, method string) {
+	fn := c.ssaFunc(c.mustFunc(pkgShort, typeName+"."+method))
+	if fn == nil {
+		return
+	}
+	c.analysed(qname(fn))
+	key := fmt.Sprintf("%s.%s.%s halves meet", pkgShort, typeName, method)
+	type cut struct {
+		arr ssa.Value
+		idx ssa.Value
+		val ssa.Value
+		st  *ssa.Store
+	}
+	var cuts []cut
+	for _, b := range fn.Blocks {
+		for _, ins := range b.Instrs {
+			st, ok := ins.(*ssa.Store)
+			if !ok {
+				continue
+			}
+			ia, ok := st.Addr.(*ssa.IndexAddr)
+			if !ok {
+				continue
+			}
+			if _, isAlloc := ia.X.(*ssa.Alloc); !isAlloc {
+				continue
+			}
+			if _, isConst := ia.Index.(*ssa.Const); isConst {
+				continue
+			}
+			cuts = append(cuts, cut{ia.X, ia.Index, st.Val, st})
+		}
+	}
+	if len(cuts) != 2 {
+		c.problem("%s: expected two axis-indexed bound stores, found %d", key, len(cuts))
+		return
+	}
+	a, b := cuts[0], cuts[1]
+	sameIdx := a.idx == b.idx || equivValue(a.idx, b.idx, 0)
+	sameVal := a.val == b.val || equivValue(a.val, b.val, 0)
+	// b.val = load of a's slot
+	if ld, ok := b.val.(*ssa.UnOp); ok && ld.Op == token.MUL {
+		if ia, ok := ld.X.(*ssa.IndexAddr); ok && ia.X == a.arr && (ia.Index == a.idx || equivValue(ia.Index, a.idx, 0)) {
+			sameVal = true
+		}
+	}
+	switch {
+	case a.arr == b.arr:
+		c.bad(rule, key, b.st.Pos(), "both bound stores go to the same array: one half keeps the parent's full range")
+	case !sameIdx:
+		c.bad(rule, key, b.st.Pos(), "the two halves are cut on different axes")
+	case !sameVal:
+		c.bad(rule, key, b.st.Pos(), "the upper bound of one half and the lower bound of the other are different values: cells between them are meshed twice or not at all")
+	default:
+		c.ok(rule, key, a.st.Pos(), "one value is the upper bound of the first half and the lower bound of the second, on the same axis")
+	}
+}
